@@ -17,7 +17,7 @@ RULE = ("Hypothesis byte-backed generator: one command with 1-4 variables, the B
         "counts, mixed case, one non-hex character at a generated position. String text: built from a decoded target of length "
         "data_size-2..data_size+1 over bytes 0x01-0xFF minus CR/LF with quote, backslash, LF, comma over-represented, each special "
         "character escaped, so the overflowing character is a plain character, an escape or the closing quote; plus malformed "
-        "variants (missing quotes, bad escape, text after the closing quote, lone backslash). Plus an enumerated sweep data_size 1-8 x "
+        "variants (missing quotes, bad escape, text after the closing quote, lone backslash). Two directed classes: an empty argument while the working buffer still holds match-state bytes that spell hex digits (table constructed for it), and argument lists longer than 255 characters. Plus an enumerated sweep data_size 1-8 x "
         "length -2..+2 x position of one escape. Non-trivial = decoded length >= data_size-1, or the text contains an escape, or it "
         "is rejected; distinct by case hash.")
 ASSUMPTIONS = ["argument bytes 0x01-0xFF without LF/CR (a NUL ends the argument text, DESIGN 4.3)",
@@ -123,7 +123,58 @@ def build_case(vs, pos, parts, h, need_all, cls, txt):
     return dict(spec=s, meta=dict(pos=pos, cls=cls, txt=txt))
 
 
+HEXLETTERS = {}
+for _ch in b"ABDEFabdef":
+    _pairs = [(_ch >> (2 * k)) & 3 for k in range(4)]
+    if 3 not in _pairs:
+        HEXLETTERS[_ch] = _pairs          # match states (0 none, 1 partial, 2 full) of 4 consecutive commands that spell this byte
+
+
+def gen_stale_buffer(d):
+    """Empty argument (AT<name>=) while the command working buffer still holds the 2-bit match states of the lookup: the
+    table is constructed so that those bytes spell hex digits followed by NUL. An empty argument must be rejected."""
+    letters = [d.pick(sorted(HEXLETTERS)) for _ in range(d.pick([2, 2, 4]))]
+    if not any(2 in HEXLETTERS[c] for c in letters):
+        letters[0] = d.pick([c for c in HEXLETTERS if HEXLETTERS[c][0] == 2])
+    states = [x for c in letters for x in HEXLETTERS[c]] + [0, 0, 0, 0]
+    if 2 not in states:
+        return None
+    name = d.pick([b"+B", b"+HEX", b"X"])
+    sz = d.rng(1, 4)
+    cmds = []
+    for j, stt in enumerate(states):
+        if stt == 2:
+            cmds.append(S.mk_cmd(name, "w", [S.mk_var(BHEX, sz, RW, b"\x7e" * sz, wcb=1)]))
+        elif stt == 1:
+            cmds.append(S.mk_cmd(name + b"%d" % j, "w", []))
+        else:
+            cmds.append(S.mk_cmd(b"Q%d" % j, "n", []))
+    cap = max(8, (len(cmds) + 3) // 4 + d.pick([0, 1, 6]))
+    s = S.mk_spec(cmds, input=b"AT" + name + b"=" + (b"\r" if d.below(2) else b"") + b"\n", shared=False, bufsz=cap, ubufsz=8)
+    return dict(spec=s, meta=dict(pos=0, cls="stale-buffer", txt=b"", target=states.index(2)))
+
+
+def gen_long_line(d):
+    """argument lists longer than 255 characters in a buffer that can hold them"""
+    vs = [S.mk_var(BHEX, d.pick([62, 63, 64]), RW, d.bytes(64), wcb=1), S.mk_var(BHEX, d.pick([63, 64]), RW, d.bytes(64), wcb=1),
+          S.mk_var(d.pick([BHEX, STR]), d.pick([2, 4, 40]), RW, d.bytes(40), wcb=1)]
+    parts = [b"".join(b"%02X" % d.below(256) for _ in range(vs[0]["size"])), b"".join(b"%02x" % d.below(256) for _ in range(vs[1]["size"] - d.below(2)))]
+    if vs[2]["type"] == BHEX:
+        parts.append(b"".join(b"%02X" % d.below(256) for _ in range(d.rng(1, vs[2]["size"]))))
+    else:
+        parts.append(G.enc_string(bytes(d.pick(b"abcXYZ") for _ in range(d.rng(0, vs[2]["size"] - 1)))))
+    c = S.mk_cmd(b"+B", "w", vs)
+    args = b",".join(parts)
+    s = S.mk_spec([c], input=b"AT+B=" + args + b"\n", shared=False, bufsz=len(args) + d.pick([2, 3, 40, 300]), ubufsz=8)
+    return dict(spec=s, meta=dict(pos=2, cls="long-line", txt=parts[2]))
+
+
 def gen(d, tier):
+    r = d.below(24)
+    if r == 0:
+        return gen_stale_buffer(d)
+    if r == 1:
+        return gen_long_line(d)
     t = d.pick([BHEX, STR])
     sz = d.weighted([(6, d.rng(1, 8)), (3, d.rng(9, 24)), (2, d.rng(25, 64))])
     target = S.mk_var(t, sz, d.pick([RW, RW, WO]), d.bytes(sz), wcb=1 if d.chance(4, 5) else 0)
@@ -153,10 +204,11 @@ def judge(case, t):
         return ("world-invariant", str(xv[:2]))
     if t.reason != "quiescent":
         return ("no-quiescence", t.reason)
-    c = S.all_cmds(s)[0]
-    raw = ref.split_lines(s["input"])[0][0]
+    ti = case["meta"].get("target", 0)
+    c = S.all_cmds(s)[ti]
+    raw = bytes(x for x in ref.split_lines(s["input"])[0][0] if x != 13)
     args = raw.split(b"=", 1)[1]
-    final = t.final_vars()
+    final = {(0, k): v for (ci, k), v in t.final_vars().items() if ci == ti}
     pos = 0
     k = 0
     fail_at = None
@@ -184,7 +236,7 @@ def judge(case, t):
         if not (comma and k < len(c["vars"])):
             break
     wrote = [h for h in t.handlers if h.kind == "w"]
-    out = t.out
+    out = t.out.replace(b"\r", b"")
     for j, v in enumerate(c["vars"]):
         if v["type"] not in (BHEX, STR):
             continue
@@ -195,7 +247,7 @@ def judge(case, t):
             want = dec + (b"\0" if v["type"] == STR else b"")
             if got[:len(want)] != want:
                 return ("wrong-bytes", "variable %d (type %d size %d): text in %r decodes to %r, variable holds %r" % (j, v["type"], v["size"], args, want, got))
-            cb = [x for x in t.varcbs if x.vi == j and x.kind == "w"]
+            cb = [x for x in t.varcbs if x.ci == ti and x.vi == j and x.kind == "w"]
             if v["wcb"] and (len(cb) != 1 or cb[0].size != len(dec)):
                 return ("write-size", "variable %d: decoded length %d but write callback records %r" % (j, len(dec), cb))
         elif fail_at is None or j > fail_at:
@@ -219,7 +271,7 @@ def judge(case, t):
 
 def classify(case):
     s = case["spec"]
-    c = S.all_cmds(s)[0]
+    c = S.all_cmds(s)[case["meta"].get("target", 0)]
     m = case["meta"]
     v = c["vars"][m["pos"]]
     txt = m["txt"]
